@@ -1,5 +1,5 @@
 """A small translator from a subset of Python (the arithmetic / bit-twiddling cores of han/*.py) to Lean 4 terms.
-Its output, lean/Amshan/GeneratedCode{Fcs,BackOff,P1,Hdlc}.lean, is REGENERATED from the working tree on every
+Its output, lean/Amshan/GeneratedCode{Fcs,BackOff,P1,Hdlc,HdlcReader}.lean, is REGENERATED from the working tree on every
 run; Props/*Gen.lean prove each generated definition equal to the hand-written model, so for these functions
 the tie between model and code is a kernel-checked theorem about a mechanical translation of the source, not a
 sample.
@@ -33,7 +33,30 @@ guards; `x[a:-k]` with a literal k), comparisons (`opt == int` is `opt == some i
 and/or/not, conditional expressions, `is (not) None`, `cast(int | bytes | bool, x)`, `bool(x)`, `bytes(x)`, `bytearray()`, calls of other
 translated functions, and `while True:` without break (the last statement of its block; see `Fn.do_while`).
 Logging calls and docstrings are dropped.  A read of a local that may be unbound is rejected.  Anything else raises
-Unsupported: the check then reports the function as untranslatable (an obligation that no longer checks)."""
+Unsupported: the check then reports the function as untranslatable (an obligation that no longer checks).
+
+Methods that CHANGE THEIR OBJECT (the state machine core of HdlcFrameReader) are translated as state-passing functions
+(`Fn(record=, mutates=, ghosts=, effects=, pyret=, selfcalls=, objmethods=, constructors=, once=)`):
+  * `self` is a record (`record`: a Lean structure and the parameter of that type) of the attributes the method may
+    assign (`mutates`: bool / int / list / Optional object fields); attributes that are only read are `mapping`
+    entries (the configuration).  The definition answers (new record, ghosts .., python's return value);
+  * `self.x = e`, `self.x.append(v)`, `self.x.clear()` on such attributes are assignments to the field;
+  * opaque objects (`register_object`): a configured constructor (`HdlcFrame()`), configured methods and properties
+    (`objmethods`: `x.append(v)` changes x, `len(x)`, `x.header.header_check_sequence`, `x.is_expected_length`) are
+    mapped to Lean functions on the object's model type - configured like `calls` / `callfns`, not translated here.
+    A member of None uses `default` (python raises: the theorems state the guards).  A second name for a list or an
+    object that may be changed in place is rejected (aliasing is not tracked);
+  * `self.m(args)` for another translated method (`selfcalls`) - as a statement, as the whole right-hand side of an
+    assignment, or as the returned value, never inside an expression - applies the GENERATED definition of m to the
+    current record and continues with the record (and ghosts, and value) it answers;
+  * a call whose effect lies outside the record (`effects`: `self._buffer.trim_buffer_to_flag_or_end()`) is a no-op on
+    the record and is RECORDED in a Boolean ghost of the answer (false on entry; a callee's ghost is or-ed in);
+    `self._buffer.pop()` is a parameter (`calls` + `once`: more than one use, or a use in a loop, is rejected);
+  * `assert` is a no-op (its test is still translated, so that an unsupported expression is rejected);
+  * an `if` that only assigns attributes / locals is joined attribute by attribute as before; an `if` that calls
+    another method is translated path by path (`if c then <answer after A; rest> else <answer after B; rest>`);
+  * `x[-k]` is `x[len(x) - k]`, `x[-k:]` is `x.drop (len(x) - k)` (exactly Python's clamping, in Nat), and an index
+    into a suffix is an index into the list (`x[-1:][0]` and `x[-1]` are the same term)."""
 from __future__ import annotations
 
 import ast
@@ -98,12 +121,14 @@ LEAN_TY = {"int": "Nat", "bool": "Bool", "list": "List Nat", "optint": "Option N
 OPT_BASE = {"optint": "int", "optbool": "bool", "optlist": "list"}
 OPT_OF = {v: k for k, v in OPT_BASE.items()}
 MAX_SIZE = 4000          # nodes of one translated function: `if`s with a return duplicate what follows them
+OBJECTS = set()          # tags of opaque object types (register_object)
 
 # ---------------------------------------------------------------- the term language
 # ("lit", n) ("true",) ("false",) ("none",) ("nil",) ("var", id) ("const", lean text)
 # ("bin", op, a, b) ("not", a) ("and", [..]) ("eq", a, b) ("lt", a, b) ("ite", c, a, b)
 # ("app", head text, [args]) ("len", l) ("getD", l, i) ("take", l, n) ("drop", l, n) ("append1", l, x)
 # ("some", a) ("isSome", a) ("ogetD", a, default) ("tuple", [..]) ("range", lo, count)
+# ("rec", lean structure name, [(field, a) ..]) ("proj", a, "field" | "2.1")
 # statement positions only:
 # ("yield", [..])   the new state of the enclosing fold
 # ("letfold", out ids, in ids, item id, types, body, inits, coll, rest)
@@ -111,6 +136,21 @@ TRUE, FALSE, NONE, NIL = ("true",), ("false",), ("none",), ("nil",)
 DEFAULT_IR = {"int": ("lit", 0), "bool": FALSE, "list": NIL, "optint": NONE, "optbool": NONE, "optlist": NONE}
 
 V = namedtuple("V", "ir type unbound")      # value of a python name: term, type tag, "may be unbound here"
+
+
+def register_object(tag, lean_type):
+    """An opaque object type: its values are only built, changed and observed through configured constructors and
+    methods (`Fn.constructors`, `Fn.objmethods`), which are mapped to Lean functions on `lean_type` - they are not
+    translated here.  `opt<tag>` is the Optional of it.  Where Python would raise on None (a method of None) the
+    translation is total and uses `default` (the theorems state the guards)."""
+    paren = f"({lean_type})" if " " in lean_type else lean_type
+    LEAN_TY[tag] = lean_type
+    LEAN_TY["opt" + tag] = f"Option {paren}"
+    OPT_BASE["opt" + tag] = tag
+    OPT_OF[tag] = "opt" + tag
+    DEFAULT_IR[tag] = ("const", f"(default : {lean_type})")
+    DEFAULT_IR["opt" + tag] = NONE
+    OBJECTS.add(tag)
 
 
 def lit(n):
@@ -263,6 +303,36 @@ def mk_drop(l, n):
     return l if n == lit(0) else ("drop", l, n)
 
 
+def mk_get(l, i):
+    """l[i] (0 when out of range); an index into a suffix is an index into the list: x[n:][i] is x[n + i]"""
+    if l[0] == "drop":
+        return mk_get(l[1], l[2] if i == lit(0) else mk_bin("+", l[2], i))
+    return ("getD", l, i)
+
+
+def tuple_path(j, n):
+    """component j of a right-nested n-tuple, as a projection path: "1", "2.1", "2.2" for n = 3"""
+    return ".".join(["2"] * j + (["1"] if j < n - 1 else []))
+
+
+def mk_proj(a, path):
+    """a field of a record / a component (tuple_path) of a right-nested tuple"""
+    if a[0] == "rec" and path in dict(a[2]):
+        return dict(a[2])[path]
+    if a[0] == "tuple" and len(a[1]) > 1:
+        for j in range(len(a[1])):
+            if tuple_path(j, len(a[1])) == path:
+                return a[1][j]
+    return ("proj", a, path)
+
+
+def mk_rec(name, fields):
+    """a record; `{ a := x.a, b := x.b }` with all the fields of one x is x"""
+    if all(v[0] == "proj" and v[2] == f for f, v in fields) and len({show(v[1], None) for _, v in fields}) == 1:
+        return fields[0][1][1]
+    return ("rec", name, list(fields))
+
+
 def children(e):
     t = e[0]
     if t in ("lit", "true", "false", "none", "nil", "var", "const"):
@@ -275,6 +345,10 @@ def children(e):
         return list(e[2])
     if t == "letfold":
         return [e[5]] + list(e[6]) + [e[7], e[8]]
+    if t == "rec":
+        return [v for _, v in e[2]]
+    if t == "proj":
+        return [e[1]]
     return list(e[1:])
 
 
@@ -362,6 +436,10 @@ def show(e, names):
         return a(e[1][0]) if len(e[1]) == 1 else "(" + ", ".join(show(x, names) for x in e[1]) + ")"
     if t == "range":
         return f"(List.range' {a(e[1])} {a(e[2])})"
+    if t == "rec":
+        return "{ " + ", ".join(f"{f} := {show(v, names)}" for f, v in e[2]) + f" : {e[1]} }}"
+    if t == "proj":
+        return f"{a(e[1])}.{e[2]}"
     if t == "letfold":                         # only for the canonical text
         return "(fold " + " ".join(show(c, names) for c in children(e)) + ")"
     raise Unsupported(f"internal: cannot print {t}")
@@ -402,7 +480,9 @@ def proj_path(j, n):
 class Fn:
     """one Python function -> one Lean definition"""
 
-    def __init__(self, name, obj, params, ret, mapping=None, mutates=None, calls=None, callfns=None, fuel=None):
+    def __init__(self, name, obj, params, ret, mapping=None, mutates=None, calls=None, callfns=None, fuel=None,
+                 record=None, pyret=None, ghosts=None, effects=None, selfcalls=None, objmethods=None, constructors=None,
+                 once=None):
         self.name = name                  # Lean name
         self.obj = obj                    # Python function object
         self.params = params              # [(lean name, lean type)]
@@ -414,6 +494,26 @@ class Fn:
         self.calls = calls or {}          # python dotted callee/property -> (lean expr, type)
         self.callfns = callfns or {}      # python dotted callee with arguments -> (lean function (partially applied), [argument types], result type)
         self.fuel = fuel                  # lean expression: number of iterations granted to a `while True:` loop
+        # --- methods that change the state of their object (state passing) ---
+        # record = (lean structure, lean parameter): the mutated attributes are the fields (the lean names of
+        # `mutates`) of ONE parameter of that structure type, and the final state is answered as such a record.
+        # The answer of a function with `mutates` / `ghosts` is the tuple (state, ghosts .., python's return value):
+        # the state is the record, or - without `record` - the final values of the mutated attributes.
+        self.record = record
+        self.pyret = pyret                # type of what the python function returns (None: it returns None)
+        # ghosts: Boolean flags, false on entry; effects: python dotted callee (a statement `f()`) -> ghost that it
+        # sets.  A call whose effect lies outside the translated state (the reader's input buffer is trimmed) is a
+        # no-op on the state, and RECORDED: the flag is part of the answer.
+        self.ghosts = list(ghosts or [])
+        self.effects = effects or {}
+        self.selfcalls = selfcalls or {}  # python dotted callee -> Fn of another translated method of the same object
+        # type tag of an object -> {python method / property path: (lean function, [argument types], result type)};
+        # result type "mut": the method changes its object (a statement `x.m(..)` is `x = lean x ..`); "__len__" is len(x);
+        # lean function "const:<lean expr>": a constant of the class, read through the object
+        self.objmethods = objmethods or {}
+        self.constructors = constructors or {}   # python dotted class, called without arguments -> (lean expr, type)
+        self.once = set(once or ())       # python dotted callees (`calls`) that may occur once only, outside loops
+        self.failed = False               # its translation raised: callers are untranslatable too
         self.aux = []                     # auxiliary definitions (loops): (head lines, state ids, body term)
         self.hints = {}                   # binder id -> name hint
         self.tuples = {}                  # binder id of a component -> (binder id of the tuple, j, n)
@@ -430,7 +530,7 @@ class Fn:
     def lname(self, py):
         if py in self.mutates:
             return self.mutates[py][0]
-        py = py.split(".")[-1]
+        py = py.split(".")[-1].lstrip("$")
         return py.replace("_", "v_", 1) if py.startswith("_") else py
 
     # ---------------------------------------------------------------- conversions
@@ -547,6 +647,14 @@ class Fn:
                 return ("const", self.mapping[d][0]), self.mapping[d][1]
             if d in self.calls:
                 return ("const", self.calls[d][0]), self.calls[d][1]
+            om = self.object_member(d, env)
+            if om is not None:                                     # a property of an object
+                recv, (lean, argts, rt) = om
+                if argts or rt == "mut":
+                    raise Unsupported(f"method {d} used as a value")
+                if lean.startswith("const:"):                      # a constant of its class, read through the object
+                    return ("const", lean[len("const:"):]), rt
+                return ("app", lean, [recv]), rt
             raise Unsupported(f"unknown name {d}")
         if isinstance(n, ast.BinOp):
             if type(n.op) not in BINOPS:
@@ -583,11 +691,22 @@ class Fn:
                 raise Unsupported(f"keyword arguments in call {f}")
             if f == "len" and len(n.args) == 1:
                 a, ta = self.expr(n.args[0], env)
+                base = OPT_BASE.get(ta, ta)
+                if base in OBJECTS:                                # len(object) is its __len__
+                    m = self.objmethods.get(base, {}).get("__len__")
+                    if m is None or m[1] or m[2] != "int":
+                        raise Unsupported(f"len() of a {ta}")
+                    return ("app", m[0], [self.convert(a, ta, base)]), "int"
                 return ("len", self.to_list(a, ta)), "int"
             if f == "cast" and len(n.args) == 2 and dotted(n.args[0]) in ("int", "bytes", "bytearray", "bool"):
                 # typing.cast is the identity; the translation is total: None is used as the default of the type
                 a, ta = self.expr(n.args[1], env)
                 want = {"int": "int", "bool": "bool"}.get(dotted(n.args[0]), "list")
+                return self.convert(a, ta, want), want
+            if f == "cast" and len(n.args) == 2 and dotted(n.args[0]) in self.constructors:
+                # typing.cast to the class of an opaque object: the identity (None is used as the default object)
+                a, ta = self.expr(n.args[1], env)
+                want = self.constructors[dotted(n.args[0])][1]
                 return self.convert(a, ta, want), want
             if f == "bool" and len(n.args) == 1:
                 return self.truth(n.args[0], env), "bool"
@@ -610,6 +729,19 @@ class Fn:
                 return ("app", f, sorted([self.to_int(a, ta), self.to_int(b, tb)], key=ckey)), "int"
             if f in self.calls and not n.args:
                 return ("const", self.calls[f][0]), self.calls[f][1]
+            if f in self.constructors and not n.args:
+                return ("const", self.constructors[f][0]), self.constructors[f][1]
+            if f in self.selfcalls or f in self.effects:
+                # only as a statement, as the whole right-hand side of an assignment, or as the returned value
+                raise Unsupported(f"call of the state-changing method {f} inside an expression")
+            om = self.object_member(f, env) if f else None
+            if om is not None:                                     # a method of an object that answers a value
+                recv, (lean, argts, rt) = om
+                if rt == "mut" or lean.startswith("const:"):
+                    raise Unsupported(f"call of the object-changing method / of the constant {f} inside an expression")
+                if len(argts) != len(n.args):
+                    raise Unsupported(f"call {f}: {len(n.args)} arguments, {len(argts)} expected")
+                return ("app", lean, [recv] + [self.convert(*self.expr(x, env), want) for x, want in zip(n.args, argts)]), rt
             raise Unsupported(f"call {f}")
         if isinstance(n, ast.Subscript):
             a, ta = self.expr(n.value, env)
@@ -618,6 +750,12 @@ class Fn:
             if isinstance(n.slice, ast.Slice):
                 if n.slice.step is not None:
                     raise Unsupported("slice step")
+                k = self.neg_literal(n.slice.lower)
+                if k is not None:
+                    # x[-k:] starts at max(len(x) - k, 0): exactly the truncated subtraction of Nat
+                    if n.slice.upper is not None:
+                        raise Unsupported("slice with a negative start and an end")
+                    return mk_drop(a, ("bin", "-", ("len", a), lit(k))), "list"
                 lo = self.to_int(*self.expr(n.slice.lower, env)) if n.slice.lower else lit(0)
                 if n.slice.upper is None:
                     return mk_drop(a, lo), "list"
@@ -628,11 +766,49 @@ class Fn:
                     return mk_drop(("take", a, ("bin", "-", ("len", a), lit(up.operand.value))), lo), "list"
                 hi = self.to_int(*self.expr(n.slice.upper, env))
                 return mk_drop(("take", a, hi), lo), "list"
+            k = self.neg_literal(n.slice)
+            if k is not None:
+                # x[-k] is x[len(x) - k] when k <= len(x); python raises otherwise, the translation is total (the
+                # truncated subtraction of Nat; the theorems state the guards, as for every index)
+                return mk_get(a, ("bin", "-", ("len", a), lit(k))), "int"
             i = self.to_int(*self.expr(n.slice, env))
-            return ("getD", a, i), "int"
+            return mk_get(a, i), "int"
         if isinstance(n, ast.List) and not n.elts:
             return NIL, "list"
         raise Unsupported(f"expression {type(n).__name__}")
+
+    @staticmethod
+    def neg_literal(n):
+        """k of the expression `-k` with a literal k > 0, else None"""
+        if (isinstance(n, ast.UnaryOp) and isinstance(n.op, ast.USub) and isinstance(n.operand, ast.Constant)
+                and type(n.operand.value) is int and n.operand.value > 0):
+            return n.operand.value
+        return None
+
+    def object_holder(self, d, env):
+        """d = <name bound to an object or an Optional object>.<configured member path>: (name, member path), else None"""
+        parts = d.split(".")
+        for k in range(len(parts) - 1, 0, -1):
+            p = ".".join(parts[:k])
+            if p in env:
+                base = OPT_BASE.get(env[p].type, env[p].type)
+                if base in OBJECTS and ".".join(parts[k:]) in self.objmethods.get(base, {}):
+                    return p, ".".join(parts[k:])
+                return None
+        return None
+
+    def object_member(self, d, env):
+        """(the object as a term, (lean function, argument types, result type)) of a configured member, else None.
+        A member of None: python raises, the translation uses the default object (the theorems state the guards)."""
+        h = self.object_holder(d, env)
+        if h is None:
+            return None
+        p, member = h
+        v = env[p]
+        if v.unbound:
+            raise Unsupported(f"local {p} may be unbound where it is read")
+        base = OPT_BASE.get(v.type, v.type)
+        return self.convert(v.ir, v.type, base), self.objmethods[base][member]
 
     # ---------------------------------------------------------------- statements
     @staticmethod
@@ -650,12 +826,36 @@ class Fn:
         for st in body:
             if self.skipped(st) or isinstance(st, (ast.Assign, ast.AugAssign)):
                 continue
-            if isinstance(st, ast.Expr) and isinstance(st.value, ast.Call) and (dotted(st.value.func) or "").endswith(".append"):
+            if self.stmt_call(st) is not None or isinstance(st, ast.Assert):
                 continue
             if isinstance(st, ast.If) and self.simple(st.body) and self.simple(st.orelse):
-                continue
+                # an `if` that calls other methods of the object is translated path by path (`if c then <state after
+                # A> else <state after B>`, as with a `return` inside), not attribute by attribute
+                if not any(isinstance(x, ast.Call) and dotted(x.func) in self.selfcalls for x in ast.walk(st)):
+                    continue
             return False
         return True
+
+    def state_names(self):
+        """what a call of another method of the object may assign: the mutated attributes and the ghosts"""
+        return list(self.mutates) + ["$" + g for g in self.ghosts]
+
+    def stmt_call(self, st):
+        """A statement `f(..)` that changes a variable: the python names it may assign, else None.  (By name only: the
+        types are checked when the statement is executed.)  `x.append(v)`, `x.clear()`, a configured object-changing
+        method `x.m(..)`, a configured effect, a call of another translated method of the object."""
+        if not (isinstance(st, ast.Expr) and isinstance(st.value, ast.Call)):
+            return None
+        f = dotted(st.value.func) or ""
+        if f in self.selfcalls:
+            return self.state_names()
+        if f in self.effects:
+            return ["$" + self.effects[f]]
+        if "." in f:
+            recv, m = f.rsplit(".", 1)
+            if m in ("append", "clear") or any(ms.get(m, ("", [], ""))[2] == "mut" for ms in self.objmethods.values()):
+                return [recv]
+        return None
 
     def assigned(self, body):
         """python names (locals and mutated attributes) a block may assign, loop variables excluded"""
@@ -667,10 +867,13 @@ class Fn:
                 d = dotted(x.targets[0])
             elif isinstance(x, ast.AugAssign):
                 d = dotted(x.target)
-            elif isinstance(x, ast.Expr) and isinstance(x.value, ast.Call) and (dotted(x.value.func) or "").endswith(".append"):
-                d = dotted(x.value.func)[: -len(".append")]
-            if d is not None and d not in res:
-                res.append(d)
+            if isinstance(x, ast.Assign) and isinstance(x.value, ast.Call) and dotted(x.value.func) in self.selfcalls:
+                for g in self.state_names():
+                    if g not in res:
+                        res.append(g)
+            for g in [d] if d is not None else (self.stmt_call(x) or []):
+                if g not in res:
+                    res.append(g)
             for c in ast.iter_child_nodes(x):          # source order
                 visit(c)
         for st in body:
@@ -692,17 +895,13 @@ class Fn:
             if isinstance(st, ast.If):
                 env = self.join(self.truth(st.test, env), self.exec_simple(st.body, env), self.exec_simple(st.orelse, env))
                 continue
-            if isinstance(st, ast.Expr):                           # x.append(v)
-                f = dotted(st.value.func)
-                tgt = f[: -len(".append")]
-                if len(st.value.args) != 1 or st.value.keywords:
-                    raise Unsupported("append with other than one argument")
-                if tgt not in env or tgt in self.mapping or tgt in self.mutates:
-                    raise Unsupported(f"append to {tgt}, which is not a local")
-                l, tl = self.expr(st.value.func.value, env)
-                if tl != "list":
-                    raise Unsupported(f"append to a {tl}")
-                env = self.assign(tgt, ("append1", l, self.to_int(*self.expr(st.value.args[0], env))), "list", env)
+            if isinstance(st, ast.Assert):
+                # a no-op (python raises when the test is false: the theorems state the asserted fact where they need
+                # it); the test is translated, and dropped, so that an unsupported expression in it is still rejected
+                self.truth(st.test, env)
+                continue
+            if isinstance(st, ast.Expr):                           # a statement call that changes a variable
+                env = self.exec_call(st.value, env)
                 continue
             if isinstance(st, ast.Assign):
                 if len(st.targets) != 1:
@@ -718,11 +917,127 @@ class Fn:
                 raise Unsupported(f"assignment target {ast.dump(target)[:40]}")
             if d == "self" or (d in self.mapping and d not in env):
                 raise Unsupported(f"assignment to {d}")
-            e, te = self.expr(value, env)
-            if te == "list" and self.appends and isinstance(value, ast.Name):
-                raise Unsupported(f"{d} = {value.id}: two names for one list that may be appended to")
+            if isinstance(value, ast.Call) and dotted(value.func) in self.selfcalls:
+                env, e, te = self.selfcall(value, env)             # x = self.method(..)
+                if te is None:
+                    raise Unsupported(f"{d} = {dotted(value.func)}(..), which returns None")
+            else:
+                e, te = self.expr(value, env)
+            dv = dotted(value)
+            if te == "list" and self.appends and (isinstance(value, ast.Name) or dv in self.mutates):
+                raise Unsupported(f"{d} = {dv}: two names for one list that may be changed in place")
+            if OPT_BASE.get(te, te) in OBJECTS and self.inplace and dv is not None:
+                raise Unsupported(f"{d} = {dv}: two names for one object that may be changed in place")
             env = self.assign(d, e, te, env)
         return env
+
+    def exec_call(self, call, env):
+        """the environment after a statement `f(..)` that changes a variable (see stmt_call)"""
+        f = dotted(call.func) or ""
+        if call.keywords:
+            raise Unsupported(f"keyword arguments in call {f}")
+        if f in self.selfcalls:
+            return self.selfcall(call, env)[0]
+        if f in self.effects:
+            if call.args:
+                raise Unsupported(f"call {f} with arguments")
+            return self.assign("$" + self.effects[f], TRUE, "bool", env)
+        tgt, m = f.rsplit(".", 1)
+        if tgt in env and not env[tgt].unbound and OPT_BASE.get(env[tgt].type, env[tgt].type) in OBJECTS:
+            om = self.object_member(f, env)
+            if om is None or om[1][2] != "mut":
+                raise Unsupported(f"statement call {f}")
+            if tgt not in self.mutates and (tgt in self.mapping or "." in tgt):
+                raise Unsupported(f"{f}: changes an object that is not a local or a mutated attribute")
+            recv, (lean, argts, _) = om
+            if len(argts) != len(call.args):
+                raise Unsupported(f"call {f}: {len(call.args)} arguments, {len(argts)} expected")
+            args = [self.convert(*self.expr(x, env), want) for x, want in zip(call.args, argts)]
+            return self.assign(tgt, ("app", lean, [recv] + args), OPT_BASE.get(env[tgt].type, env[tgt].type), env)
+        if m not in ("append", "clear"):
+            raise Unsupported(f"statement call {f}")
+        # x.append(v), x.clear() of a list: a local, or a mutated attribute (its final value is answered)
+        if tgt not in env or (tgt in self.mapping and tgt not in self.mutates):
+            raise Unsupported(f"{m} to {tgt}, which is not a local")
+        l, tl = self.expr(call.func.value, env)
+        if tl != "list":
+            raise Unsupported(f"{m} to a {tl}")
+        if m == "clear":
+            if call.args:
+                raise Unsupported("clear with arguments")
+            return self.assign(tgt, NIL, "list", env)
+        if len(call.args) != 1:
+            raise Unsupported("append with other than one argument")
+        return self.assign(tgt, ("append1", l, self.to_int(*self.expr(call.args[0], env))), "list", env)
+
+    def state_term(self, env):
+        """the current state of the object, as the argument of another translated method"""
+        vals = [self.coerce(env[d].ir, env[d].type, t) for d, (_, t) in self.mutates.items()]
+        if any(env[d].unbound for d in self.mutates):
+            raise Unsupported("internal: unbound attribute")
+        if self.record:
+            return [mk_rec(self.record[0], [(lean, v) for (lean, _), v in zip(self.mutates.values(), vals)])]
+        return vals
+
+    def layout(self):
+        """the components of what a function with `mutates` / `ghosts` answers"""
+        comps = [("state", None)] if self.record else [("field", d) for d in self.mutates]
+        comps += [("ghost", g) for g in self.ghosts]
+        return comps + ([("ret", None)] if self.pyret is not None else [])
+
+    def selfcall(self, call, env):
+        """`self.method(args)` for another translated method of the same object (`selfcalls`): the generated
+        definition of that method is applied to the current state, and the state afterwards (and its ghosts) are
+        the components of its answer.  Answers (environment, returned value or None, its type or None)."""
+        f = dotted(call.func)
+        g = self.selfcalls[f]
+        if call.keywords:
+            raise Unsupported(f"keyword arguments in call {f}")
+        if g.failed or isinstance(g.obj, _Missing):
+            raise Unsupported(f"call {f}: the callee {g.name} is not translatable")
+        if (g.record, g.mutates) != (self.record, self.mutates):
+            raise Unsupported(f"call {f}: the callee {g.name} has another state")
+        if any(x not in self.ghosts for x in g.ghosts):
+            raise Unsupported(f"call {f}: an effect of the callee {g.name} is not recorded here")
+        pyparams = [a for a in inspect.signature(unwrap_fn(g.obj)).parameters if a != "self"]
+        if len(pyparams) != len(call.args):
+            raise Unsupported(f"call {f}: {len(call.args)} arguments, {len(pyparams)} expected")
+        byname = {}
+        for a, x in zip(pyparams, call.args):
+            if a not in g.mapping:
+                raise Unsupported(f"call {f}: parameter {a} of the callee is not configured")
+            lean, t = g.mapping[a]
+            byname[lean] = self.convert(*self.expr(x, env), t)
+        state = self.state_term(env)
+        statenames = [g.record[1]] if g.record else [lean + "0" for lean, _ in g.mutates.values()]
+        args = []
+        for n, ty in g.params:
+            if n in statenames:
+                args.append(state[statenames.index(n)])
+            elif n in byname:
+                args.append(byname.pop(n))
+            elif (n, ty) in self.params:
+                args.append(("const", n))                          # the configuration of the object: passed on
+            else:
+                raise Unsupported(f"call {f}: no value for the parameter {n} of {g.name}")
+        if byname:
+            raise Unsupported(f"call {f}: internal: unused arguments")
+        res = ("app", g.name, args) if args else ("const", g.name)
+        comps = g.layout()
+        env = dict(env)
+        ret = None
+        for j, (kind, x) in enumerate(comps):
+            c = res if len(comps) == 1 else mk_proj(res, tuple_path(j, len(comps)))
+            if kind == "state":
+                for d, (lean, t) in self.mutates.items():
+                    env[d] = V(mk_proj(c, lean), t, False)
+            elif kind == "field":
+                env[x] = V(c, self.mutates[x][1], False)
+            elif kind == "ghost":
+                env["$" + x] = V(mk_or([env["$" + x].ir, c]), "bool", False)
+            else:
+                ret = c
+        return env, ret, g.pyret
 
     def join(self, c, ea, eb):
         """the environment after `if c: A else: B`, from the environments after A and after B"""
@@ -746,9 +1061,33 @@ class Fn:
                 return tag
         raise Unsupported(f"return type {self.ret}")
 
-    def final_state(self, env):
-        """what a function that mutates attributes answers: their final values"""
-        return ("tuple", [self.coerce(env[d].ir, env[d].type, t) for d, (_, t) in self.mutates.items()])
+    def final_state(self, env, ret=None):
+        """what a function that mutates attributes answers: their final values (as one record, with `record`), the
+        ghosts, and what python returns"""
+        comps = self.state_term(env) + [env["$" + g].ir for g in self.ghosts]
+        if self.pyret is not None:
+            comps.append(ret)
+        n = len(comps)
+        if n > 1 and all(c[0] == "proj" and c[2] == tuple_path(j, n) for j, c in enumerate(comps)) and len({show(c[1], None) for c in comps}) == 1:
+            return comps[0][1]                 # all the components of one tuple: that tuple
+        return ("tuple", comps)
+
+    def do_return(self, value, env):
+        """`return value` (value None: a bare `return`, or the end of the body) of a function with a state"""
+        none = value is None or (isinstance(value, ast.Constant) and value.value is None)
+        if self.pyret is None:
+            if not none:
+                raise Unsupported("a value is returned from a function that is configured to return None")
+            return self.final_state(env)
+        if none:
+            return self.final_state(env, self.coerce(NONE, "none", self.pyret))
+        if isinstance(value, ast.Call) and dotted(value.func) in self.selfcalls:
+            env, e, te = self.selfcall(value, env)                 # return self.method(..)
+            if te is None:
+                e, te = NONE, "none"
+        else:
+            e, te = self.expr(value, env)
+        return self.final_state(env, self.coerce(e, te, self.pyret))
 
     def block(self, body, env, k):
         """the value of running `body` in `env` and then the continuation `k` (a function of the environment)"""
@@ -765,10 +1104,10 @@ class Fn:
             if isinstance(st, ast.Return):
                 if self.in_for:
                     raise Unsupported("return inside a for loop")
-                if st.value is None or (isinstance(st.value, ast.Constant) and st.value.value is None and self.mutates):
-                    if not self.mutates:
-                        return self.coerce(NONE, "none", self.ret_tag())
-                    return self.final_state(env)
+                if self.mutates or self.ghosts:
+                    return self.do_return(st.value, env)
+                if st.value is None:
+                    return self.coerce(NONE, "none", self.ret_tag())
                 return self.coerce(*self.expr(st.value, env), self.ret_tag())
             if isinstance(st, ast.For):
                 return self.do_for(st, rest, env, k)
@@ -1037,7 +1376,10 @@ class Fn:
             raise Unsupported("parameters other than plain positional ones")
         env = {}
         for py, (lean, t) in self.mutates.items():
-            env[py] = V(("const", lean + "0"), t, False)
+            entry = mk_proj(("const", self.record[1]), lean) if self.record else ("const", lean + "0")
+            env[py] = V(entry, t, False)
+        for g in self.ghosts:
+            env["$" + g] = V(FALSE, "bool", False)
         for py, (lean, t) in self.mapping.items():
             if "." not in py and py != "self":         # a python parameter: may be assigned
                 env[py] = V(("const", lean), t, False)
@@ -1047,11 +1389,22 @@ class Fn:
         self.order = self.assigned(fn.body)
         self.order = [d for d in self.mutates if d in self.order] + [d for d in self.order if d not in self.mutates]
         self.loop_targets = {x.target.id for x in ast.walk(fn) if isinstance(x, ast.For) and isinstance(x.target, ast.Name)}
-        self.appends = any(isinstance(x, ast.Call) and (dotted(x.func) or "").endswith(".append") for x in ast.walk(fn))
+        self.appends = any(isinstance(x, ast.Call) and (dotted(x.func) or "").endswith((".append", ".clear")) for x in ast.walk(fn))
+        # may an object be changed in place (by a method of it, or by another method of `self`)?
+        muts = {"." + m for ms in self.objmethods.values() for m, sig in ms.items() if sig[2] == "mut"}
+        self.inplace = any(isinstance(x, ast.Call) and ((dotted(x.func) or "") in self.selfcalls or (dotted(x.func) or "").endswith(tuple(muts) or ("\0",)))
+                           for x in ast.walk(fn))
+        for f in self.once:
+            sites = [x for x in ast.walk(fn) if isinstance(x, (ast.Call, ast.Attribute)) and dotted(x) == f]
+            loops = [y for x in ast.walk(fn) if isinstance(x, (ast.For, ast.While)) for y in ast.walk(x) if dotted(y) == f]
+            if len(sites) > 1 or loops:
+                raise Unsupported(f"{f} is used more than once")
 
         def end(e):
-            if self.mutates:
-                return self.final_state(e)
+            if self.mutates or self.ghosts:
+                if self.pyret is not None and self.pyret not in OPT_BASE:
+                    raise Unsupported("the function can end without a return")
+                return self.do_return(None, e)
             if self.ret_tag() in OPT_BASE:             # falling off the end answers None
                 return NONE
             raise Unsupported("the function can end without a return")
@@ -1154,18 +1507,57 @@ def generate(han):
         Fn("hdlcIsValid", unwrap_fn(HF.is_valid), [("isGoodFfc", "Bool"), ("data", "List Nat")], "Bool",
            mapping={"self.is_good_ffc": ("isGoodFfc", "bool")}, calls={"self.is_expected_length": ("(hdlcIsExpectedLength data)", "bool")}),
     ]
-    groups = {"Fcs": fns[0:5], "BackOff": fns[5:9], "P1": fns[9:10], "Hdlc": fns[10:]}
+    # ---- the state machine core of HdlcFrameReader: methods that change the reader (state passing).
+    # `self` is the record Core of the attributes they assign (_unescape_next, _raw_frame_data, _frame) plus the
+    # configuration Cfg (_use_octet_stuffing, _use_abort_sequence: read only).  The frame object is opaque: its
+    # constructor, append, len and the accessors are mapped to the model's Frame functions (their own translations are
+    # proved equal to those in C01Gen).  `_buffer.trim_buffer_to_flag_or_end()` does not touch this state: it is
+    # recorded in the flag `trimmed` of the answer; `_buffer.pop()` (once) is the parameter `octet`.
+    register_object("frame", "Frame")
+    R = hdlc.HdlcFrameReader
+    core = {"self._unescape_next": ("unescapeNext", "bool"), "self._raw_frame_data": ("raw", "list"), "self._frame": ("frame", "optframe")}
+    rcfg = {"self._use_octet_stuffing": ("cfg.stuffing", "bool"), "self._use_abort_sequence": ("cfg.abort", "bool")}
+    for cls in ("self", "HdlcFrameReader"):
+        rcfg[cls + ".CONTROL_ESCAPE"] = ("Amshan.Gen.escOctet", "int")
+        rcfg[cls + ".FLAG_SEQUENCE"] = ("Amshan.Gen.flagOctet", "int")
+    rcfg["HdlcFrame.MAX_FRAME_LENGTH"] = ("Amshan.Gen.maxFrameLen", "int")
+    robj = dict(objmethods={"frame": {
+        "append": ("Frame.append", ["int"], "mut"), "__len__": ("Frame.len", [], "int"),
+        "header.header_check_sequence": ("Frame.hcs", [], "optint"), "is_expected_length": ("Frame.isExpectedLength", [], "bool"),
+        "header.frame_length": ("Frame.frameLength", [], "optint"), "header.frame_format": ("Frame.frameFormat", [], "optint"),
+        "header.control": ("Frame.control", [], "optint"), "header.information_position": ("Frame.infoPos", [], "optint"),
+        "is_good_ffc": ("Frame.isGoodFfc", [], "bool"), "is_valid": ("Frame.isValid", [], "bool"),
+        "as_bytes": ("Frame.data", [], "list"), "frame_check_sequence": ("Frame.fcsField", [], "optint"),
+        "payload": ("Frame.payload", [], "optlist"), "MAX_FRAME_LENGTH": ("const:Amshan.Gen.maxFrameLen", [], "int")}},
+        constructors={"HdlcFrame": ("Frame.empty", "frame")}, record=("Core", "s"), mutates=core)
+    trim = {"self._buffer.trim_buffer_to_flag_or_end": "trimmed"}
+    r_append = Fn("hdlcAppendToFrame", R._append_to_frame, [("cfg", "Cfg"), ("s", "Core"), ("current", "Nat")], "Core",
+                  mapping={**rcfg, "current": ("current", "int")}, **robj)
+    r_start = Fn("hdlcStartFrame", R._start_frame, [("s", "Core")], "Core", mapping=rcfg, **robj)
+    r_hunt = Fn("hdlcGotoHuntMode", R._goto_hunt_mode, [("s", "Core")], "Core × Bool", mapping=rcfg, ghosts=["trimmed"], effects=trim, **robj)
+    rcalls = {"self._append_to_frame": r_append, "self._start_frame": r_start, "self._goto_hunt_mode": r_hunt}
+    r_flag = Fn("hdlcHandleFlagSequence", R._handle_flag_sequence, [("cfg", "Cfg"), ("s", "Core")], "Core × Bool × Bool", mapping=rcfg,
+                ghosts=["trimmed"], effects=trim, pyret="bool", selfcalls=rcalls, **robj)
+    r_next = Fn("hdlcReadNext", R._read_next, [("cfg", "Cfg"), ("s", "Core"), ("octet", "Nat")], "Core × Bool × Bool", mapping=rcfg,
+                ghosts=["trimmed"], effects=trim, pyret="bool", selfcalls={**rcalls, "self._handle_flag_sequence": r_flag},
+                calls={"self._buffer.pop": ("octet", "int")}, once=["self._buffer.pop"], **robj)
+    reader = [r_append, r_start, r_hunt, r_flag, r_next]
+    groups = {"Fcs": fns[0:5], "BackOff": fns[5:9], "P1": fns[9:10], "Hdlc": fns[10:], "HdlcReader": reader}
+    # what a group's file needs besides Amshan.Generated: (imports, lines after `namespace Amshan.GenCode`)
+    extra = {"HdlcReader": (["import Amshan.Model.Hdlc"], ["open Amshan.Hdlc", ""])}
     problems = []
     files = {}
     for g, gfns in groups.items():
         out = ["/- GENERATED by harness/pytrans.py from the current /repo working tree (mechanical translation of Python",
                "   function bodies). Do not edit. Props/*Gen.lean prove these equal to the hand-written models.",
                "   One file per property group, so that a change to one function cannot break another group's proofs. -/",
-               "import Amshan.Generated", "set_option linter.unusedVariables false", "namespace Amshan.GenCode", ""]
+               "import Amshan.Generated"] + extra.get(g, ([], []))[0] + ["set_option linter.unusedVariables false", "namespace Amshan.GenCode", ""]
+        out += extra.get(g, ([], []))[1]
         for fn in gfns:
             try:
                 out.append(fn.translate())
             except Exception as ex:  # Unsupported or a changed signature: emit a stub that breaks the equivalence theorem
+                fn.failed = True
                 problems.append(f"GeneratedCode{g}: pytrans: {fn.name}: {type(ex).__name__}: {ex}")
                 out.append(f"/- untranslatable: {ex} -/\ndef {fn.name} : Unit := ()")
             out.append("")
